@@ -80,7 +80,8 @@ func (d *drifter) AfterStackPop(s *interpreter.State, b []byte) { d.rec.AfterSta
 
 // lifecycle automaton: the same states and transitions as coq/model/Debug.v (lstate / lstep), extended
 // with the stack push/pop callbacks, which may only occur while an opcode runs (after BO), at the end of a
-// script (after AO: alt stack dropped; after AC: pay-to-script-hash bookkeeping) and in the final
+// script (after AO, or after BO on an early return: alt stack dropped; after AC only in a pay-to-script-hash
+// run: its bookkeeping) and in the final
 // CheckErrorCondition (after AE of a completed run).
 //
 //	BE (BS BO [AO [BC AC]] AS | BS BO BC AC AS)* (BS [BO [AO [BC AC]]])? AE (OK|ER)
@@ -118,9 +119,11 @@ var lstep = map[lstate]map[string]lstate{
 	qAEerr: {"ER": qErr},
 }
 
-var stackAllowed = map[lstate]bool{qBO: true, qAO: true, qACe: true, qAEok: true}
+var stackAllowed = map[lstate]bool{qBO: true, qAO: true, qAEok: true}
 
-func lifecycleOK(tr []string) (bool, string) {
+// p2sh: the run is a pre-Genesis pay-to-script-hash evaluation; only then may stack callbacks follow a script
+// change (the first script's result is popped and the saved stack installed after the shift to script 2).
+func lifecycleOK(tr []string, p2sh bool) (bool, string) {
 	if len(tr) == 0 {
 		return true, "" // rejected before execution started: no callbacks at all
 	}
@@ -129,7 +132,7 @@ func lifecycleOK(tr []string) (bool, string) {
 		e := tr[i]
 		switch e {
 		case "bp", "ap", "bq", "aq":
-			if !stackAllowed[q] {
+			if !stackAllowed[q] && !(p2sh && q == qACe) {
 				return false, fmt.Sprintf("stack callback %s at %d outside opcode / end-of-script / final check (state %d)", e, i, q)
 			}
 			nxt := ""
@@ -207,7 +210,8 @@ func emit19(p *interpgen.Program) {
 	if rec.Incons != "" {
 		c.Violate("Debugger/snapshot-inconsistent-with-execution", rec.Incons, p)
 	}
-	if ok, why := lifecycleOK(rec.Trace); !ok {
+	p2sh := p.Flags&interpgen.FBip16 != 0 && p.Flags&interpgen.FGenesis == 0 && len(p.Lock) == 23 && p.Lock[0] == 0xa9 && p.Lock[1] == 0x14 && p.Lock[22] == 0x87
+	if ok, why := lifecycleOK(rec.Trace, p2sh); !ok {
 		c.Violate("Debugger/callback-order", why+": "+strings.Join(rec.Trace, " "), p)
 	}
 	if (rec.Obs == "ok") != (len(rec.Trace) > 0 && rec.Trace[len(rec.Trace)-1] == "OK") {
@@ -231,6 +235,14 @@ func runC19() {
 	}
 	for i := 0; i < nP2SH; i++ {
 		emit19(interpgen.P2SH(r))
+	}
+	interpgen.ScriptBoundary(emit19)
+	nFlow := 300
+	if c.Thorough() {
+		nFlow = 8000
+	}
+	for i := 0; i < nFlow; i++ {
+		emit19(interpgen.Flow(r))
 	}
 	// one program per shape of the lifecycle grammar (the Examples of coq/Properties/C19.v), incl. the
 	// invalid-program-counter step (BS directly followed by AE) after an early return into an empty script
@@ -258,5 +270,5 @@ func runC19() {
 	over := append(bytes.Repeat([]byte{0x51}, 3), bytes.Repeat([]byte{0x6f}, 332)...)
 	over = append(over, 0x51, 0x51)
 	emit19((&interpgen.Program{Unlock: []byte{}, Lock: over, Flags: 0, Kind: "lifecycle-stack-limit"}).Fix())
-	c.Stats.Rule = "the interpreter-equivalence programs (opcode x operand matrix sample, grammar-generated programs, P2SH pairs, both eras, sampled flags), each run five ways: no debugger, a recording debugger, two debuggers that overwrite every field and every stack byte of every State they are handed (XOR 0xff, and +1 which is not self-inverse) and one that changes the push data of the parsed opcodes in State.Scripts; verdict AND error text, callback sequence and all snapshots must coincide; the callback sequence is checked against the lifecycle grammar in Go and, projected to lifecycle events, compared with the model's trace in Coq. distinct = distinct program; one program per shape of the lifecycle grammar and one reaching the combined stack limit exactly and exceeding it by one are added. non-trivial = at least one step completed"
+	c.Stats.Rule = "the interpreter-equivalence programs (opcode x operand matrix sample, grammar-generated programs, P2SH pairs, script-boundary and flow-control programs, both eras, sampled flags), each run five ways: no debugger, a recording debugger, two debuggers that overwrite every field and every stack byte of every State they are handed (XOR 0xff, and +1 which is not self-inverse) and one that changes the push data of the parsed opcodes in State.Scripts; verdict AND error text, callback sequence and all snapshots must coincide; the callback sequence is checked against the lifecycle grammar in Go and, projected to lifecycle events, compared with the model's trace in Coq. distinct = distinct program; one program per shape of the lifecycle grammar and one reaching the combined stack limit exactly and exceeding it by one are added. non-trivial = at least one step completed"
 }
